@@ -68,7 +68,12 @@ def _run_task(task):
         out["errors"] = [{"type": type(e).__name__, "msg": str(e)[:400], "tb": traceback.format_exc()[-3000:], "shard": shard}]
         out.setdefault("violations", [])
     out["task_wall_s"] = round(time.monotonic() - t0, 3)
-    return out
+    # only plain data may cross the process boundary (a leaked symbolic value cannot be pickled and would hang the pool)
+    try:
+        return json.loads(json.dumps(out, default=lambda o: f"<{type(o).__name__}>"))
+    except BaseException as e:  # noqa
+        return {"obligation": obl_name, "shard": shard, "violations": [], "task_wall_s": out["task_wall_s"],
+                "errors": [{"type": "UnserialisableResult", "msg": f"{type(e).__name__}: {e}"[:300], "tb": "", "shard": shard}]}
 
 
 # ------------------------------------------------------------------------------------------------
